@@ -138,6 +138,9 @@ pub fn substitute(table: &Table, line: &str) -> Outcome {
     let mut cmd = true;
     // no assignment or redirection of the current command seen yet: reserved words are recognised
     let mut start = true;
+    // a compound command has just ended: only redirections and separators may follow; what a
+    // word there means (and whether an alias is looked up for it) is not defined
+    let mut after_compound = false;
     let mut redir = false;
     let mut stack: Vec<Frame> = Vec::new();
     let mut i = 0;
@@ -179,8 +182,14 @@ pub fn substitute(table: &Table, line: &str) -> Outcome {
                     cmd = true;
                 }
                 ("\n", Some(Frame::CaseIn | Frame::CasePattern)) => {}
-                (")", _) => cmd = false,
-                _ => cmd = true,
+                (")", _) => {
+                    cmd = false;
+                    after_compound = true;
+                }
+                _ => {
+                    cmd = true;
+                    after_compound = false;
+                }
             }
             start = cmd;
             i += 1;
@@ -249,6 +258,7 @@ pub fn substitute(table: &Table, line: &str) -> Outcome {
                     if literal && w == "esac" {
                         stack.pop();
                         cmd = false;
+                        after_compound = true;
                         i += 1;
                         continue;
                     }
@@ -269,12 +279,16 @@ pub fn substitute(table: &Table, line: &str) -> Outcome {
                 let mut handled = true;
                 match w {
                     "!" | "{" | "if" | "then" | "else" | "elif" | "while" | "until" | "do" => cmd = true,
-                    "}" | "fi" | "done" => cmd = false,
+                    "}" | "fi" | "done" => {
+                        cmd = false;
+                        after_compound = true;
+                    }
                     "esac" => {
                         if matches!(stack.last(), Some(Frame::CaseBody { .. })) {
                             stack.pop();
                         }
                         cmd = false;
+                        after_compound = true;
                     }
                     "for" => {
                         stack.push(Frame::ForName);
@@ -305,6 +319,10 @@ pub fn substitute(table: &Table, line: &str) -> Outcome {
             }
         }
         // ---------- alias substitution?
+        if after_compound && !redir && !command_name_position && candidate(false, &toks).is_some() {
+            undefined = Some("alias name right after a compound command");
+            break;
+        }
         if let Some(a) = candidate(command_name_position, &toks) {
             subs += 1;
             let ends_blank = a.value.chars().next_back().is_some_and(is_blank);
